@@ -4,7 +4,7 @@
 //! usage: gencase --seed N --count K --mode filter|neutral|rules [--max-commits M]
 use frrs_harness::gen::{History, OptSet};
 use frrs_harness::rng::Rng;
-use frrs_harness::streamcase::model_request;
+use frrs_harness::streamcase::{fill_regex_tables, model_request};
 use frrs_harness::wire::enc;
 use serde_json::json;
 
@@ -86,13 +86,37 @@ fn main() {
             o.blob_file = keep_blob.or(Some(b"hunter2==>***REMOVED***\nsecret\n".to_vec()));
         }
         cli_clean(&mut o);
+        // the two directory shorthands of the command line, typed with and without the trailing slash; their documented
+        // meaning (`--path D/ --path-rename D/:` and `--path-rename :D/`) is what the model is given
+        let mut shorthand: Vec<String> = Vec::new();
+        if mode == "filter" && r.chance(1, 6) {
+            let dirs: Vec<Vec<u8>> = h.all_paths().iter().filter_map(|p| p.iter().position(|&b| b == b'/').map(|i| p[..i].to_vec()))
+                .filter(|d| utf8_ok(d) && !d.is_empty() && !d.contains(&b'\\') && !d.contains(&b':') && d != b"." && d != b"..").collect();
+            if !dirs.is_empty() {
+                let d = dirs[r.below(dirs.len())].clone();
+                let mut full = d.clone(); full.push(b'/');
+                o.paths.push(full.clone());
+                o.renames.push((full, Vec::new()));
+                shorthand.push("--subdirectory-filter".into());
+                shorthand.push(if r.chance(2, 3) { s(&d) } else { format!("{}/", s(&d)) });
+            }
+        } else if mode == "filter" && r.chance(1, 12) {
+            let d = *r.pick(&[&b"sub"[..], b"into/deep", b"d"][..]);
+            let mut full = d.to_vec(); full.push(b'/');
+            o.renames.push((Vec::new(), full));
+            shorthand.push("--to-subdirectory-filter".into());
+            shorthand.push(if r.chance(2, 3) { s(d) } else { format!("{}/", s(d)) });
+        }
+        let n_short_paths = if shorthand.first().map_or(false, |f| f == "--subdirectory-filter") { 1 } else { 0 };
+        let n_short_renames = if shorthand.is_empty() { 0 } else { 1 };
         // CLI arguments
         let mut cli: Vec<String> = Vec::new();
-        for p in &o.paths { cli.push("--path".into()); cli.push(s(p)); }
+        for p in &o.paths[..o.paths.len() - n_short_paths] { cli.push("--path".into()); cli.push(s(p)); }
         for g in &o.globs { cli.push("--path-glob".into()); cli.push(s(g)); }
         for rx in &o.regexes { cli.push("--path-regex".into()); cli.push(rx.clone()); }
         if o.invert { cli.push("--invert-paths".into()); }
-        for (a, b) in &o.renames { cli.push("--path-rename".into()); cli.push(format!("{}:{}", s(a), s(b))); }
+        for (a, b) in &o.renames[..o.renames.len() - n_short_renames] { cli.push("--path-rename".into()); cli.push(format!("{}:{}", s(a), s(b))); }
+        cli.extend(shorthand.iter().cloned());
         if let Some((a, b)) = &o.tag_rename { cli.push("--tag-rename".into()); cli.push(format!("{}:{}", s(a), s(b))); }
         if let Some((a, b)) = &o.branch_rename { cli.push("--branch-rename".into()); cli.push(format!("{}:{}", s(a), s(b))); }
         if let Some(m) = o.max_blob { cli.push("--max-blob-size".into()); cli.push(m.to_string()); }
@@ -116,6 +140,11 @@ fn main() {
         // model option string (the strip file is translated to real ids by the runner)
         let mut o2 = o.clone();
         o2.strip_file = None;
+        {
+            let msgs: Vec<Vec<u8>> = h.commits.iter().map(|c| c.msg.clone()).chain(h.tags.iter().map(|t| t.msg.clone())).collect();
+            let blobs: Vec<Vec<u8>> = h.blobs.iter().map(|b| b.content.clone()).collect();
+            fill_regex_tables(&mut o2, &msgs, &blobs);
+        }
         let req = model_request(&o2, b"", 0, &h.all_paths());
         let model_opts = req.split(' ').nth(1).unwrap().to_string();
         // HEAD: a branch that exists at the end
